@@ -14,11 +14,15 @@ PENDING = {}  # property id -> reason, for properties without a module
 def main():
     props = [json.loads(l) for l in open(os.path.join(VERIF, 'properties.jsonl'))]
     checks, na = [], []
+    claimed = set(json.load(open(os.path.join(VERIF, 'harness', 'claimed.json'))))
     for p in props:
         pid = p['id']
         path = os.path.join(VERIF, 'harness', 'props', pid.lower() + '.py')
         if not os.path.exists(path):
             na.append({'property_id': pid, 'reason': PENDING.get(pid, 'no check registered yet: model/proofs/correspondence for this property are still under construction (DESIGN.md section 7); nothing is claimed')})
+            continue
+        if pid not in claimed:
+            na.append({'property_id': pid, 'reason': 'check under construction (harness/props/%s.py exists but is not yet sound on the unchanged tree); nothing is claimed' % pid.lower()})
             continue
         mod = importlib.import_module('props.' + pid.lower())
         if getattr(mod, 'NOT_CLAIMED', None):
